@@ -129,7 +129,7 @@ CLAIMED = {
         "iteration order of the node sets in ford.graphs (fixed project, 12 graph classes) the ordered entity lists, names, identifiers, the order of "
         "used-module listings and the emitted graph node/edge sequence equal those of a reference order.  Worker scheduling, stale output directories, "
         "third-party set use and comprehension-built sets outside the rewritten modules are outside the claim.",
-        "Trusted: z3, CV evaluator, the permutation stub fv/permset.py (bound 4 elements per set), the assumption that rendering reads only the compared state; "
+        "Trusted: z3, CV evaluator, the permutation stub fv/permset.py (bound 5 elements per set), the assumption that rendering reads only the compared state; "
         "list-order differences are reported only when real runs under different hash seeds produce different bytes.",
         "DESIGN.md §11.7",
     ),
